@@ -93,6 +93,8 @@ pub struct SectionStats {
     pub evaluations: u64,
     pub nontrivial: u64,
     pub distinct_obs: HashSet<u64>,
+    /// distinct outcomes counted by a bulk sweep itself (too many to keep as a set)
+    pub bulk_distinct: u64,
     pub states: u64,
     pub transitions: u64,
     pub max_depth: u64,
@@ -243,6 +245,32 @@ impl Cx {
         false
     }
 
+    /// Account for a sweep that is too large to record case by case: `evals` cases were executed,
+    /// `distinct` of them had pairwise distinct observations (counted by the sweep), `violation`
+    /// carries the first failing case of the chunk, if any.
+    pub fn bulk(&self, section: &str, evals: u64, distinct: u64, sample: Value, violation: Option<(String, String, Value)>) {
+        let mut g = self.inner.lock().unwrap();
+        if !g.sections.contains_key(section) {
+            g.order.push(section.to_string());
+            g.sections.insert(section.to_string(), SectionStats { exhaustive: true, ..Default::default() });
+        }
+        let s = g.sections.get_mut(section).unwrap();
+        s.evaluations += evals;
+        s.nontrivial += evals;
+        s.bulk_distinct += distinct;
+        if s.samples.len() < 6 {
+            s.samples.push(sample);
+        }
+        if let Some((sig, desc, case)) = violation {
+            let known = self.known.contains(&sig);
+            if let Some(v) = g.violations.iter_mut().find(|v| v.signature == sig && v.section == section) {
+                v.count += 1;
+            } else {
+                g.violations.push(ViolationRec { section: section.to_string(), signature: sig, desc, case, count: 1, known });
+            }
+        }
+    }
+
     /// Journal + run + record, for input/cell enumerations.
     pub fn eval(&self, section: &str, case: &Value, f: impl FnOnce() -> CaseOut) -> bool {
         if !self.journal(section, case) {
@@ -277,7 +305,7 @@ impl Cx {
         for name in &g.order {
             let s = &g.sections[name];
             evaluations += s.evaluations;
-            distinct += s.distinct_obs.len() as u64;
+            distinct += s.distinct_obs.len() as u64 + s.bulk_distinct;
             states += s.states;
             transitions += s.transitions;
             exhaustive &= s.exhaustive;
@@ -293,7 +321,7 @@ impl Cx {
             o.insert("section".into(), json!(name));
             o.insert("evaluations".into(), json!(s.evaluations));
             o.insert("nontrivial".into(), json!(s.nontrivial));
-            o.insert("distinct_outcomes".into(), json!(s.distinct_obs.len()));
+            o.insert("distinct_outcomes".into(), json!(s.distinct_obs.len() as u64 + s.bulk_distinct));
             if s.states > 0 {
                 o.insert("states".into(), json!(s.states));
                 o.insert("transitions".into(), json!(s.transitions));
